@@ -5,6 +5,10 @@
    a fresh client-data-store cache) at a symbolic preemption point. Outcome kind, externalisation threshold and
    backend symbolic. Canary: status published before the result (statements swapped in the AST).
 2. CH: DistributedInvocation.get_final_result for every status x stored outcome.
+3. SCHED: a displaced worker. The invocation was RUNNING under r1, recovery re-queued it, r2 runs it to its outcome
+   while the stale r1 also completes its body (its final transition is refused, its outcome write is not guarded).
+   Whatever the interleaving and whichever outcome kinds, the final status is the winner's and reading the result
+   gives the value / exception of one of the completed executions - never nothing.
 """
 
 from engine.core import Cond, Ctx
@@ -175,6 +179,69 @@ def guard(kind, cur, stored):
     if name == "success":
         return got == ("value", 5) if stored == 1 else got[0] == "other"
     return got[0] in ("other", "value") if stored != 1 else got == ("value", 5)
+
+def observe_any(app, iid, outcomes):
+    """final status -> the result / exception of SOME completed execution of the body"""
+    app.client_data_store._deserialized_cache.clear()
+    reader = app.state_backend.get_invocation(iid)
+    st = reader.status
+    if st == St.SUCCESS:
+        try:
+            got = reader.get_final_result()
+        except Exception as e:
+            return "C05:SUCCESS-but-result-unreadable:" + type(e).__name__
+        if not any((not is_exc) and got == v for is_exc, v in outcomes):
+            return "C05:SUCCESS-with-wrong-result"
+    elif st == St.FAILED:
+        try:
+            reader.get_final_result()
+            return "C05:FAILED-but-result-returned"
+        except InvocationError:
+            return "C05:FAILED-but-exception-unreadable"
+        except Exception as e:
+            if not any(is_exc and same_exc(e, v) for is_exc, v in outcomes):
+                return "C05:FAILED-with-wrong-exception:" + type(e).__name__
+    else:
+        return "C05:final-status-not-reached"
+    return None
+
+def displaced(kind, wk, sk, big, min_size, first, k):
+    """wk / sk: outcome kind of the winner (r2) and of the stale worker (r1)"""
+    global LAST_DETAIL
+    app, inv, ctx1 = world(kind, min_size)                 # RUNNING under r1
+    orch = app.orchestrator; iid = inv.invocation_id
+    rec = runner_ctx("recovery")
+    orch.set_invocation_status(iid, St.RUNNING_RECOVERY, rec)
+    orch.reroute_invocations({iid}, rec)
+    ctx2 = runner_ctx("r2")
+    for st in (St.PENDING, St.RUNNING):
+        orch.set_invocation_status(iid, st, ctx2)
+    w_exc, w_val = outcome(wk, big)
+    s_exc, s_val = outcome(sk, 0)
+    if not s_exc:
+        s_val = {"stale": True}
+    elif s_exc and type(s_val) is type(w_val):
+        s_val = type(s_val)("stale")
+    def mk(is_exc, val, ctx):
+        return orch.set_invocation_exception__gen(inv, val, ctx) if is_exc else orch.set_invocation_result__gen(inv, val, ctx)
+    winner = coop.Actor("winner-r2", mk(w_exc, w_val, ctx2))
+    stale = coop.Actor("stale-r1", mk(s_exc, s_val, ctx1))
+    res = coop.run_schedule([winner, stale], first, [k])
+    coop.close_all_connections()
+    problems = []
+    if winner.error is not None:
+        problems.append("C05:displaced:winner-raised:" + type(winner.error).__name__)
+    if stale.error is None:
+        problems.append("C05:displaced:stale-worker-was-not-refused")
+    final = observe_any(app, iid, [(w_exc, w_val), (s_exc, s_val)])
+    if final:
+        problems.append(final + ":after-displaced-worker-finished")
+    exp_final = St.FAILED if w_exc else St.SUCCESS
+    if not problems and orch.get_invocation_status(iid) != exp_final:
+        problems.append("C05:displaced:final-status-is-not-that-of-the-winner")
+    LAST_DETAIL = {"kind": kind, "winner": wk, "stale": sk, "big": big, "min_size": min_size, "first": first, "k": k,
+                   "stale_error": repr(stale.error)[:80], "why": problems[0] if problems else None}
+    return not problems
 '''
 
 F = r'''
@@ -186,6 +253,17 @@ def order___KIND_____O__(big: int, min_size: int, k: int) -> bool:
     big = pick(big, 0, 1); min_size = [0, 30, 1024][pick(min_size, 0, 2)]
     with NoTracing():
         return race(["mem", "sqlite"][__KIND__], __O__, big, min_size, k)
+'''
+
+D = r'''
+def displaced___KIND__(wk: int, sk: int, big: int, min_size: int, first: int, k: int) -> bool:
+    """
+    pre: 0 <= wk <= 4 and 0 <= sk <= 4 and 0 <= big <= 1 and 0 <= min_size <= 1 and 0 <= first <= 1 and 0 <= k <= KMAX
+    post: _
+    """
+    wk = pick(wk, 0, 4); sk = pick(sk, 0, 4); big = pick(big, 0, 1); min_size = [0, 1024][pick(min_size, 0, 1)]
+    with NoTracing():
+        return displaced(["mem", "sqlite"][__KIND__], wk, sk, big, min_size, first, k)
 '''
 
 EXTRA = r'''
@@ -209,6 +287,12 @@ def twin(k: int) -> bool:
 '''
 
 
+def _key_from_replay(args, kwargs, replay_out):
+    import re
+    m = re.search(r"'why': '([^']+)'", replay_out or "")
+    return m.group(1) if m else "C05:unclassified"
+
+
 def run(ctx: Ctx) -> None:
     kmax = 40
     src = SRC + "\ninstall(False)\n"
@@ -217,6 +301,9 @@ def run(ctx: Ctx) -> None:
         for o in range(5):
             src += F.replace("__KIND__", str(kind)).replace("__O__", str(o)).replace("KMAX", str(kmax))
             conds.append(Cond(f"order_{kind}_{o}", "confirm", 900))
+    for kind in (0, 1):
+        src += D.replace("__KIND__", str(kind)).replace("KMAX", str(kmax))
+        conds.append(Cond(f"displaced_{kind}", "confirm", 1500, keyfn=_key_from_replay))
     src += EXTRA.replace("KMAX", str(kmax))
     conds += [Cond("guard_all", "confirm", 600), Cond("twin", "refute", 60)]
     ctx.ch_batch("c05", src, conds)
@@ -227,7 +314,8 @@ def run(ctx: Ctx) -> None:
                               "BaseClientDataStore.serialize/resolve/_maybe_store", "DistributedInvocation.status/get_final_result"]
     ctx.bounds = {"reader": f"one observation (status, then result/exception, fresh caches) at every preemption point 0..{kmax} of the worker, plus after completion",
                   "outcomes": "dict value, list value, ValueError(2 args), KeyError, PynencError subclass; small and padded; min_size_to_cache in {0, 30, 1024} (inline and externalised)",
-                  "guard": "every status x {nothing, result, exception stored} x both backends"}
+                  "guard": "every status x {nothing, result, exception stored} x both backends",
+                  "displaced worker": f"winner and stale outcome kinds 5 x 5, small/padded, inline/externalised, both backends, first actor, one preemption 0..{kmax}"}
     ctx.stubs += ["cached_status_time=0 (no status cache)", "reader clears the client-data-store LRU (a different process)", "CoopLock, sqlite timeout=0, sync history threads, counter clock"]
     ctx.assumptions += ["result/exception VALUES are drawn from a small concrete family (serializers are C code and are realised at the boundary): sampling, not part of the discharged claim",
                         "JsonSerializer only (the harness default); pickle/jsonpickle round trips are not covered"]
